@@ -5,6 +5,9 @@ HERE = os.path.dirname(os.path.dirname(os.path.abspath(__file__)))
 sys.path.insert(0, HERE)
 
 CHECKS = {
+ 'C18': ('simnet', 'exploration',
+         'Real Filter.run with the real OpenFilterLineage and its real heartbeat thread (only the OpenLineage client is a recorder) is ended in every way of the C08 injection matrix, incl. propagated clean/error exits from neighbours, with the heartbeat interval longer than / about / much shorter than the run; the recorded (eventType, runId) sequence of every run that ended must match START RUNNING* (COMPLETE|ABORT) with one run id and the terminal kind must match the run() outcome; the recorder is read after the heartbeat thread was joined.',
+         'Either terminal kind is accepted for an obeyed propagated error; heartbeat/filter thread interleavings are whatever the OS produces under a 1 us switch interval (the verdict does not depend on them).', '6 C18'),
  'C01': ('simnet', 'exploration',
          'Seeded executions of the real ZMQSender/ZMQReceiver/MQ/Filter.run on a simulated ZeroMQ with virtual time (topology families x behaviours x subscription forms x delay classes x faults: lost publishes, kill+restart, stalls, slow links, late joins). Every process() input of every consumer is mapped frame by frame to the publication it came from (unique provenance tokens, transport log) and checked for one message id, per-source completeness against the publisher\'s topic list and one original per origin at rejoins. Held = no set violated these on the executions explored; two restart-related mechanisms are recorded as known findings.',
          'The transport below the zmq API is simulated (calibrated against pyzmq, over-approximation rule of DESIGN 3.5); one thread runs at a time; topic names reaching one consumer are disjoint by construction.', '6 C01'),
